@@ -177,7 +177,8 @@ def handle_failure(prop, m, cfg, name, checks, tests, known, known_hits, log, in
     outs = ""
     if tests:
         rep_dev, o1 = kani.native_replay(prop, cfg, tests, release=False, log=log)
-        rep_rel, o2 = kani.native_replay(prop, cfg, tests, release=True, log=log)
+        # `cargo kani playback` (0.68) has no release profile; the dev profile is what Kani models
+        rep_rel = None
         outs = o1[-3000:]
     ub_only = checks and all(any(u in c["desc"].lower() for u in UB_MARKERS) for c in checks)
     art = {"property": prop, "harness": name, "module_feature": prop.lower(), "config": list(cfg),
